@@ -60,6 +60,10 @@ type c19Tx struct {
 	Opts  []string  `json:"opts"`
 	Msgs  []c19Node `json:"forest"`
 	Label string    `json:"label"`
+	// EthStyle (signed stream): build the transaction the way MsgEthereumTx.BuildTx does (fee and gas taken from the
+	// Ethereum messages, no Cosmos signature) whatever its extension options are - the shape an attacker would use to
+	// smuggle a correctly signed Ethereum message past a path other than the Ethereum one
+	EthStyle bool `json:"eth_style,omitempty"`
 }
 
 type c19Case struct {
